@@ -27,6 +27,7 @@ fn cfg_for(role: Role, script: Vec<SenderKind>, enumerate: bool) -> WalkCfg {
         allow_subscribe: false,
         allow_loops: false,
         allow_ready: false,
+        allow_local_failures: false,
         manual_release: true,
         partial_progress_pct: 0,
         enumerate,
